@@ -13,7 +13,21 @@ def main():
     a = ap.parse_args()
     seed = int(os.environ.get('VERIF_SEED', '1'))
     mod = importlib.import_module('props.' + a.prop.lower())
-    rc = mod.run(a.tier, seed, replay=a.replay)
+    try:
+        rc = mod.run(a.tier, seed, replay=a.replay)
+    except Exception:
+        # the machinery itself broke on this tree (a generator, the harness or the driver failed in a way no case accounts for):
+        # the property is no longer shown to hold, and there is no failing input to show
+        import traceback, json
+        tb = traceback.format_exc()
+        d = os.path.join(VERIF, 'replays', a.prop.upper()); os.makedirs(d, exist_ok=True)
+        rp = os.path.join(d, '%d-crash.json' % seed)
+        json.dump(dict(property=a.prop.upper(), tier=a.tier, seed=seed, kind='no-failing-input-found',
+                       broken=['correspondence: the check could not be carried out: ' + tb.strip().splitlines()[-1]],
+                       traceback=tb, ops=[], impl=[], model=[]), open(rp, 'w'), indent=1)
+        sys.stderr.write(tb)
+        print('VIOLATION property=%s replay=%s no-failing-input-found' % (a.prop.upper(), rp))
+        sys.exit(1)
     sys.exit(rc)
 
 if __name__ == '__main__':
